@@ -25,6 +25,9 @@ extern int mpt_parse_config(MPT_TYPE(input_parser) next, void *npar, MPT_STRUCT(
 	MPT_STRUCT(value) val = MPT_VALUE_INIT(MPT_type_toVector('c'), &vec);
 	int ret;
 	
+	/* valid size refers to data of (new) local path */
+	parse->valid = 0;
+	
 	/* accuire next path element */
 	while ((ret = next(npar, parse, &path)) > 0) {
 		vec.iov_base = (char *) (path.base + path.off + path.len);
